@@ -711,84 +711,84 @@ func shapeExists(line, ws, digit, anything *Term) *Term {
 
 // readLine is the contract of bufio.Reader.ReadLine over the reader's remaining data.
 func (m *Machine) readLine(rs *readerState) Value {
-		rest := m.needString(rs.rest, "ReadLine")
-		nonEmpty := false
-		for _, pc := range pieces(rest) {
-			if pc.IsConst() && pc.Str != "" {
-				nonEmpty = true
-			}
+	rest := m.needString(rs.rest, "ReadLine")
+	nonEmpty := false
+	for _, pc := range pieces(rest) {
+		if pc.IsConst() && pc.Str != "" {
+			nonEmpty = true
 		}
-		if !nonEmpty && m.branch("readline.eof", Eq(rest, StrC(""))) {
-			return TupleV{ByteSlice{Nil: true, T: m.strLit("")}, False, m.errSentinelByName("io.EOF")}
+	}
+	if !nonEmpty && m.branch("readline.eof", Eq(rest, StrC(""))) {
+		return TupleV{ByteSlice{Nil: true, T: m.strLit("")}, False, m.errSentinelByName("io.EOF")}
+	}
+	nl := StrC("\n")
+	size := rs.size
+	// prefixChunk: no newline within the first `size` bytes and at least `size` bytes buffered:
+	// ReadLine hands out the full buffer with isPrefix = true (a trailing \r is held back).
+	prefixChunk := func() Value {
+		chunk := mk("str.substr", SString, rest, IntC(0), IntC(int64(size)))
+		if m.branch("readline.prefix.cr", strSuffixOf(StrC("\r"), chunk)) {
+			chunk = mk("str.substr", SString, rest, IntC(0), IntC(int64(size-1)))
+			rs.rest = mk("str.substr", SString, rest, IntC(int64(size-1)), intSub(strLenInt(rest), IntC(int64(size-1))))
+		} else {
+			rs.rest = mk("str.substr", SString, rest, IntC(int64(size)), intSub(strLenInt(rest), IntC(int64(size))))
 		}
-		nl := StrC("\n")
-		size := rs.size
-		// prefixChunk: no newline within the first `size` bytes and at least `size` bytes buffered:
-		// ReadLine hands out the full buffer with isPrefix = true (a trailing \r is held back).
-		prefixChunk := func() Value {
-			chunk := mk("str.substr", SString, rest, IntC(0), IntC(int64(size)))
-			if m.branch("readline.prefix.cr", strSuffixOf(StrC("\r"), chunk)) {
-				chunk = mk("str.substr", SString, rest, IntC(0), IntC(int64(size-1)))
-				rs.rest = mk("str.substr", SString, rest, IntC(int64(size-1)), intSub(strLenInt(rest), IntC(int64(size-1))))
-			} else {
-				rs.rest = mk("str.substr", SString, rest, IntC(int64(size)), intSub(strLenInt(rest), IntC(int64(size))))
-			}
-			return TupleV{ByteSlice{T: chunk}, True, IfaceV{}}
-		}
-		if before, after, ok := m.cutAtByte(rest, '\n'); ok {
-			// the first newline is syntactically determined; the buffer bound is decided from known
-			// lengths when possible, by the solver otherwise
-			var inbuf bool
-			if bl, known := m.lenKnown(before); known {
-				inbuf = bl <= size-1
-				if !inbuf {
-					if head, tail, ok2 := m.splitAt(rest, size); ok2 {
-						if ends, k2 := m.endsWithKnown(head, '\r'); k2 && !ends {
-							rs.rest = tail
-							return TupleV{ByteSlice{T: head}, True, IfaceV{}}
-						}
+		return TupleV{ByteSlice{T: chunk}, True, IfaceV{}}
+	}
+	if before, after, ok := m.cutAtByte(rest, '\n'); ok {
+		// the first newline is syntactically determined; the buffer bound is decided from known
+		// lengths when possible, by the solver otherwise
+		var inbuf bool
+		if bl, known := m.lenKnown(before); known {
+			inbuf = bl <= size-1
+			if !inbuf {
+				if head, tail, ok2 := m.splitAt(rest, size); ok2 {
+					if ends, k2 := m.endsWithKnown(head, '\r'); k2 && !ends {
+						rs.rest = tail
+						return TupleV{ByteSlice{T: head}, True, IfaceV{}}
 					}
-					return prefixChunk()
 				}
-			} else {
-				inbuf = m.branch("readline.inbuf", intLE(strLenInt(before), IntC(int64(size-1))))
+				return prefixChunk()
 			}
-			if inbuf {
-				rs.rest = after
-				line := before
-				if ends, known := m.endsWithKnown(before, '\r'); known {
-					if ends {
-						ps := pieces(before)
-						last := ps[len(ps)-1]
-						line = joinPieces(append(append([]*Term{}, ps[:len(ps)-1]...), StrC(last.Str[:len(last.Str)-1])))
-					}
-				} else {
-					cr := strSuffixOf(StrC("\r"), before)
-					line = Ite(cr, mk("str.substr", SString, before, IntC(0), intSub(strLenInt(before), IntC(1))), before)
-				}
-				return TupleV{ByteSlice{T: line}, False, IfaceV{}}
-			}
-			return prefixChunk()
+		} else {
+			inbuf = m.branch("readline.inbuf", intLE(strLenInt(before), IntC(int64(size-1))))
 		}
-		idx := mk("str.indexof", SInt, rest, nl, IntC(0))
-		found := strContains(rest, nl)
-		inBuf := And(found, intLE(idx, IntC(int64(size-1))))
-		if m.branch("readline.found", inBuf) {
-			before := mk("str.substr", SString, rest, IntC(0), idx)
-			start := intAdd(idx, IntC(1))
-			after := mk("str.substr", SString, rest, start, intSub(strLenInt(rest), start))
+		if inbuf {
 			rs.rest = after
-			// drop one trailing \r
-			cr := strSuffixOf(StrC("\r"), before)
-			line := Ite(cr, mk("str.substr", SString, before, IntC(0), intSub(strLenInt(before), IntC(1))), before)
+			line := before
+			if ends, known := m.endsWithKnown(before, '\r'); known {
+				if ends {
+					ps := pieces(before)
+					last := ps[len(ps)-1]
+					line = joinPieces(append(append([]*Term{}, ps[:len(ps)-1]...), StrC(last.Str[:len(last.Str)-1])))
+				}
+			} else {
+				cr := strSuffixOf(StrC("\r"), before)
+				line = Ite(cr, mk("str.substr", SString, before, IntC(0), intSub(strLenInt(before), IntC(1))), before)
+			}
 			return TupleV{ByteSlice{T: line}, False, IfaceV{}}
-		}
-		if m.branch("readline.short", intLT(strLenInt(rest), IntC(int64(size)))) {
-			rs.rest = StrC("")
-			return TupleV{ByteSlice{T: rest}, False, IfaceV{}}
 		}
 		return prefixChunk()
 	}
+	idx := mk("str.indexof", SInt, rest, nl, IntC(0))
+	found := strContains(rest, nl)
+	inBuf := And(found, intLE(idx, IntC(int64(size-1))))
+	if m.branch("readline.found", inBuf) {
+		before := mk("str.substr", SString, rest, IntC(0), idx)
+		start := intAdd(idx, IntC(1))
+		after := mk("str.substr", SString, rest, start, intSub(strLenInt(rest), start))
+		rs.rest = after
+		// drop one trailing \r
+		cr := strSuffixOf(StrC("\r"), before)
+		line := Ite(cr, mk("str.substr", SString, before, IntC(0), intSub(strLenInt(before), IntC(1))), before)
+		return TupleV{ByteSlice{T: line}, False, IfaceV{}}
+	}
+	if m.branch("readline.short", intLT(strLenInt(rest), IntC(int64(size)))) {
+		rs.rest = StrC("")
+		return TupleV{ByteSlice{T: rest}, False, IfaceV{}}
+	}
+	return prefixChunk()
+}
 
 // tagVolatile marks the line returned by ReadLine as pointing into the reader's buffer.
 func (m *Machine) tagVolatile(rs *readerState, v Value) Value {
